@@ -548,7 +548,7 @@ def _pmap_init():
         cur = int(open("/proc/self/statm").read().split()[0]) * os.sysconf("SC_PAGE_SIZE") / 2 ** 30
     except Exception:  # noqa
         cur = 0.0
-    limit_memory(cur + float(os.environ.get("VERIF_WORKER_GIB", "8")))
+    limit_memory(cur + float(os.environ.get("VERIF_WORKER_GIB", "4")))
 
 
 def _pmap_call(args):
